@@ -418,6 +418,19 @@ func ecCompressedCases(r *rand.Rand, c *ref.ECCurve) []bcase {
 	return cs
 }
 
+// consumeArg is called right after a decoder accepted `arg` (a withSpare copy of orig): the decoder must
+// not have written to the caller's buffer, and the caller now reuses the buffer - whatever the decoded
+// object returns afterwards must not depend on it.
+func consumeArg(arg, orig []byte) string {
+	if !spareIntact(arg, orig) {
+		return "decoder-modified-its-input-buffer"
+	}
+	for i := range arg {
+		arg[i] ^= 0x5A
+	}
+	return ""
+}
+
 // decJudge compares one decoder call with the reference verdict.
 func decJudge(run *mon.Run, label string, c bcase, refOK bool, refWhy string, call func() (enc []byte, enc2 []byte, err error), wantEnc []byte) {
 	var enc, enc2 []byte
@@ -490,9 +503,13 @@ func C05(run *mon.Run) {
 			why = "not-32-bytes-in-[1,r-1]"
 		}
 		decJudge(run, "bls:DecodePrivateKey", c, ok, why, func() ([]byte, []byte, error) {
-			sk, err := crypto.DecodePrivateKey(BLS, c.b)
+			arg := withSpare(c.b)
+			sk, err := crypto.DecodePrivateKey(BLS, arg)
 			if err != nil {
 				return nil, nil, err
+			}
+			if msg := consumeArg(arg, c.b); msg != "" {
+				return []byte(msg), nil, nil
 			}
 			return sk.Encode(), nil, nil
 		}, c.b)
@@ -511,9 +528,13 @@ func C05(run *mon.Run) {
 			f    func(crypto.SigningAlgorithm, []byte) (crypto.PublicKey, error)
 		}{{"bls:DecodePublicKey", crypto.DecodePublicKey}, {"bls:DecodePublicKeyCompressed", crypto.DecodePublicKeyCompressed}} {
 			decJudge(run, d.name, c, ok, why, func() ([]byte, []byte, error) {
-				pk, err := d.f(BLS, c.b)
+				arg := withSpare(c.b)
+				pk, err := d.f(BLS, arg)
 				if err != nil {
 					return nil, nil, err
+				}
+				if msg := consumeArg(arg, c.b); msg != "" {
+					return []byte(msg), nil, nil
 				}
 				if !bytes.Equal(pk.Encode(), pk.EncodeCompressed()) {
 					return nil, nil, fmt.Errorf("Encode != EncodeCompressed")
@@ -617,9 +638,13 @@ func C05(run *mon.Run) {
 				why = "not-32-bytes-in-[1,n-1]"
 			}
 			decJudge(run, ec.n+":DecodePrivateKey", c, ok, why, func() ([]byte, []byte, error) {
-				sk, err := crypto.DecodePrivateKey(ec.alg, c.b)
+				arg := withSpare(c.b)
+				sk, err := crypto.DecodePrivateKey(ec.alg, arg)
 				if err != nil {
 					return nil, nil, err
+				}
+				if msg := consumeArg(arg, c.b); msg != "" {
+					return []byte(msg), nil, nil
 				}
 				return sk.Encode(), nil, nil
 			}, c.b)
@@ -632,9 +657,13 @@ func C05(run *mon.Run) {
 			}
 			want := c.b
 			decJudge(run, ec.n+":DecodePublicKey", c, ok, why, func() ([]byte, []byte, error) {
-				pk, err := crypto.DecodePublicKey(ec.alg, c.b)
+				arg := withSpare(c.b)
+				pk, err := crypto.DecodePublicKey(ec.alg, arg)
 				if err != nil {
 					return nil, nil, err
+				}
+				if msg := consumeArg(arg, c.b); msg != "" {
+					return []byte(msg), nil, nil
 				}
 				if !ok {
 					return pk.Encode(), nil, nil // accepted although the reference rejects: judged by the caller
@@ -656,9 +685,13 @@ func C05(run *mon.Run) {
 				why = "not-x962-compressed"
 			}
 			decJudge(run, ec.n+":DecodePublicKeyCompressed", c, ok, why, func() ([]byte, []byte, error) {
-				pk, err := crypto.DecodePublicKeyCompressed(ec.alg, c.b)
+				arg := withSpare(c.b)
+				pk, err := crypto.DecodePublicKeyCompressed(ec.alg, arg)
 				if err != nil {
 					return nil, nil, err
+				}
+				if msg := consumeArg(arg, c.b); msg != "" {
+					return []byte(msg), nil, nil
 				}
 				if !ok {
 					return pk.EncodeCompressed(), nil, nil
